@@ -65,7 +65,7 @@ class Report:
         self.only = None         # replay filter (rule, construct, token)
         self.explanation = ''
         self.not_decided = []
-        self.write = True
+        self.write = not os.environ.get('VERIF_NO_EVIDENCE')
         self.violations = []
         self.matched = []
 
